@@ -61,6 +61,7 @@ MOD = {
               "bye_same_summary", "sr_padding_anywhere"],
     "Fast": ["fast_nack_eq", "fast_fir_eq", "fast_sli_eq", "fast_compound_eq", "fast_compoundParse_eq", "fast_sdesParse_eq",
              "fast_packetParse_eq", "fast_kindParse_eq"],
+    "FastWrite": ["fast_writerVia_eq", "fast_sdesWriter_eq", "fast_chunkWriter_eq", "fast_chunkRun_eq"],
     "EndToEnd": ["fb_nack_end_to_end", "fb_fir_end_to_end", "fb_sli_end_to_end", "fb_rpsi_end_to_end", "fb_pli_end_to_end",
                  "fci_err_truthful", "parseFci_err_truthful", "packet_err_truthful", "packet_pad_transparent",
                  "compound_iter_offsets", "sdes_sizes_bounded"],
@@ -81,7 +82,7 @@ OBLIGATIONS = {
     "C02": ["rb_roundtrip", "sr_roundtrip", "rr_roundtrip", "rb_refines", "sr_refines", "rr_refines", "written_eq_image",
             "writeInto_ok", "rb_rules", "sr_rules", "rr_rules"],
     "C03": ["sdes_roundtrip", "refTok_encode", "item_refines", "chunk_refines", "sdes_refines", "written_eq_image",
-            "writeInto_ok", "sdes_rules", "item_rules", "chunk_rules", "item_accessors"],
+            "writeInto_ok", "sdes_rules", "item_rules", "chunk_rules", "item_accessors"] + MOD["FastWrite"],
     "C04": ["bye_roundtrip", "app_roundtrip", "bye_refines", "app_refines", "written_eq_image", "writeInto_ok",
             "bye_rules", "app_rules"],
     "C05": ["fb_roundtrip", "fb_refines", "nack_roundtrip", "fir_roundtrip", "sli_roundtrip", "rpsi_roundtrip",
@@ -91,7 +92,7 @@ OBLIGATIONS = {
             "fb_nack_end_to_end", "fb_fir_end_to_end", "fb_sli_end_to_end", "fb_rpsi_end_to_end", "fb_pli_end_to_end"],
     "C06": REFINES + ["writeInto_ok", "writeInto_short", "writeInto_err", "writeInto_no_panic", "length_preserved",
                       "sr_size_mod4", "rr_size_mod4", "bye_size_mod4", "app_size_mod4", "sdes_size_mod4",
-                      "unknown_size_mod4", "fb_size_mod4", "compound_size_sum"],
+                      "unknown_size_mod4", "fb_size_mod4", "compound_size_sum"] + MOD["FastWrite"],
     "C07": REFINES + ["written_eq_image", "writeHeader_spec", "writePadding_spec", "nack_roundtrip",
                       "nack_words_increasing", "nack_minimal", "fir_roundtrip", "fir_image_perm", "sizes_bounded"]
            + MOD["Layout"],
@@ -154,7 +155,7 @@ def parse_custom(r, tier, frac=0.3):
 
 
 def parse_sdes(r, tier):
-    return (streams.sdes_many_chunks(r) + streams.sdes_priv_utf8(r) + streams.typed_stream("sdes", r, tier) + streams.sdes_short_bodies(r, tier)
+    return (streams.sdes_many_chunks(r) + streams.sdes_big_chunks(r) + streams.sdes_priv_utf8(r) + streams.typed_stream("sdes", r, tier) + streams.sdes_short_bodies(r, tier)
             + streams.sdes_wf_variants(r, 600 if tier == "quick" else 6000))
 
 
@@ -264,7 +265,43 @@ def build_stream(r, tier, kinds=ALL_BUILD, styles=("canon", "canon", "minimal", 
             if cfg.get("_big") and big == "light" and not cfg.get("_light") and (cfg["k"] not in ("app", "unknown") or cfg.get("_size_only")): continue
             style = r.choice(styles)
             ce.append((cfg, gen.render(cfg, r, style), {"style": style}))
+    ce += twin_setter_history(r, kinds)
     return fidelity.build_requests(ce, tier, r)
+
+
+def twin_setter_history(r, kinds):
+    """a value set twice, through either of the borrowed / owned twins of its setter, for every pair
+    of length residues mod 4 (and, for RPSI, every pair of unused-bit counts at the ends of their
+    range): what a setter derives from the value (alignment, word count, an owned copy) must be
+    derived again by its twin and must not survive from the earlier call"""
+    ce = []
+    B = gen.B
+    if "bye" in kinds:
+        for l1 in range(0, 8):
+            for l2 in range(0, 8):
+                for c1 in ("reason", "reason_owned"):
+                    for c2 in ("reason", "reason_owned"):
+                        if c1 == c2 and r.random() < 0.5: continue
+                        r1, r2 = gen.r_text(r, l1), gen.r_text(r, l2)
+                        p_ = r.choice([0, 0, 4])
+                        ns = r.choice([0, 1, 2])
+                        cfg = {"k": "bye", "padding": p_, "sources": list(range(1, ns + 1)), "reason": r2 if l2 else None}
+                        if not l2: cfg["reason"] = b""
+                        calls = [f"(padding {p_})"] + [f"(add_source {i})" for i in range(1, ns + 1)] + [f"({c1} {B(r1)})", f"({c2} {B(r2)})"]
+                        ce.append((cfg, "(bye " + " ".join(calls) + ")", {"style": "twin"}))
+    if "fb" in kinds or "pfb" in kinds:
+        for l1 in range(0, 6):
+            for l2 in range(0, 6):
+                for k1, k2 in ((0, 0), (8, 0), (0, 8), (8, 8), (3, 5)):
+                    c1, c2 = r.choice([("native_data", "native_data_owned"), ("native_data_owned", "native_data"),
+                                       ("native_data_owned", "native_data_owned"), ("native_data", "native_data")])
+                    if l1 == 0: k1 = 0
+                    if l2 == 0: k2 = 0
+                    d1, d2 = bytes([0xff]) * l1, bytes(r.getrandbits(8) | 1 for _ in range(l2))
+                    cfg = {"k": "pfb", "mode": "owned", "fci": {"k": "rpsi", "pt": 96, "data": d2, "overrun": k2}, "padding": 0, "sender": 1, "media": 2}
+                    fci = f"(rpsi (payload_type 96) ({c1} {B(d1)} {k1}) ({c2} {B(d2)} {k2}))"
+                    ce.append((cfg, f"(pfb owned {fci} (padding 0) (sender_ssrc 1) (media_ssrc 2))", {"style": "twin"}))
+    return ce
 
 
 def group_stream(r, tier):
